@@ -96,9 +96,12 @@ Section LintGroupFacts.
   Notation lg_lint := (lg_lint cfg kind enabled cfg_hash tok_hash linters plinters).
   Notation lg_run := (lg_run cfg kind enabled cfg_hash tok_hash linters plinters).
 
-  (* the token invariant (C02) as far as LintGroup::lint needs it: every chunk's hull ends inside the source *)
+  (* the token invariant (C02) as far as LintGroup::lint needs it: every chunk's hull ends inside the source; and
+     (phase 5) every token has start <= end — LintGroup::lint itself does not need it, the pattern rules' premise is
+     only asked for such chunks (so that it can be PROVED for the rules of the table: C03RootsProofs.v) *)
+  Definition toks_wf (ts : toks) : Prop := Forall (fun t => sstart (snd t) <= send (snd t)) ts.
   Definition chunks_ok (src : text) (chs : list toks) : Prop :=
-    forall ts sp, In ts chs -> hull_of ts = Ok (Some sp) -> send sp <= length src.
+    forall ts, In ts chs -> toks_wf ts /\ forall sp, hull_of ts = Ok (Some sp) -> send sp <= length src.
   Definition doc_ok (d : ldoc kind) : Prop := chunks_ok (l_src d) (l_chunks d).
   Fixpoint hist_ok (h : list (lop cfg kind)) : Prop :=
     match h with
@@ -117,7 +120,7 @@ Section LintGroupFacts.
   Definition wrules_ok : Prop :=
     forall n r t d, In (n, r) linters -> doc_ok d -> Forall (lint_in (length (l_src d))) (r t d).
   Definition prules_ok : Prop :=
-    forall n r t src ts sp, In (n, r) plinters -> hull_of ts = Ok (Some sp) -> send sp <= length src ->
+    forall n r t src ts sp, In (n, r) plinters -> toks_wf ts -> hull_of ts = Ok (Some sp) -> send sp <= length src ->
       Forall (lint_within sp) (r t src ts).
 
   (* the invariant of the cache *)
@@ -132,10 +135,10 @@ Section LintGroupFacts.
   Proof. intros Hv H k' v' Hin. apply In_put in Hin. destruct Hin as [E|Hin]; [injection E as -> ->; assumption|now apply H]. Qed.
 
   Lemma run_plinters_within t c src ts sp :
-    prules_ok -> hull_of ts = Ok (Some sp) -> send sp <= length src ->
+    prules_ok -> toks_wf ts -> hull_of ts = Ok (Some sp) -> send sp <= length src ->
     Forall (lint_within sp) (run_plinters cfg kind enabled plinters t c src ts).
   Proof.
-    intros HP Hh Hb. unfold run_plinters. apply Forall_flat_map_intro. intros [n r] Hin. cbn [fst snd].
+    intros HP Hwf Hh Hb. unfold run_plinters. apply Forall_flat_map_intro. intros [n r] Hin. cbn [fst snd].
     destruct (enabled c n); [|constructor]. eapply HP; eassumption.
   Qed.
   Lemma run_linters_in t c d :
@@ -165,12 +168,13 @@ Section LintGroupFacts.
   Proof.
     intros HP. induction chs as [|ts rest IH]; intros evs m Hc Hm.
     - exists m, [], []. cbn [C03LintGroup.lg_chunks]. auto.
-    - assert (Hrest : chunks_ok src rest) by (intros ts' sp' Hin; apply Hc; now right).
+    - assert (Hrest : chunks_ok src rest) by (intros ts' Hin; apply Hc; now right).
       cbn [C03LintGroup.lg_chunks]. set (m1 := evict (hd keep_all evs) m).
       assert (Hm1 : cache_ok m1) by now apply cache_ok_evict.
       destruct (hull_of_total kind ts) as [o Ho]. rewrite Ho. cbn [bind]. destruct o as [sp|]; [|now apply IH].
       pose proof (hull_of_wf kind ts sp Ho) as W.
-      assert (B : send sp <= length src) by (apply (Hc ts sp); [now left|assumption]).
+      destruct (Hc ts (or_introl eq_refl)) as [Hwf Hcb].
+      assert (B : send sp <= length src) by (apply (Hcb sp); assumption).
       destruct (get_content_inside sp src W B) as (chars & Hg & Hlen). rewrite Hg. cbn [bind].
       rewrite (rel_toks_ok kind _ _ (hull_of_below kind ts sp Ho)). cbn [bind].
       match goal with |- context [tok_hash ?x] => set (rt := x) end. set (key := (chars, cfg_hash c, tok_hash rt)).
@@ -179,7 +183,7 @@ Section LintGroupFacts.
         destruct (IH (tl evs) m1 Hrest (cache_ok_evict _ _ Hm)) as (m' & out & hits & E & Hm' & Hout). fold m1 in E.
         rewrite E. cbn [bind]. do 3 eexists. split; [reflexivity|]. split; [assumption|].
         apply Forall_app. split; [|assumption]. apply lpush_in with (len := length chars); [lia|assumption].
-      + pose proof (run_plinters_within t c src ts sp HP Ho B) as Hpl.
+      + pose proof (run_plinters_within t c src ts sp HP Hwf Ho B) as Hpl.
         rewrite mapM_lpull_ok by (eapply Forall_impl; [|exact Hpl]; intros l (H1 & H2 & _); split; assumption).
         cbn [bind]. match goal with |- context [put code_key_eqb key ?x] => set (rel := x) end.
         assert (Hrel : Forall (lint_in (length chars)) rel) by (rewrite Hlen; now apply lrel_in).
@@ -269,7 +273,7 @@ Definition ex_run (pl : list (N * prule N)) h :=
 
 Lemma ex_prules_ok : prules_ok N [(0%N, ex_prule)].
 Proof.
-  intros n r t src ts sp [E|[]] Ho Hb. injection E as <- <-. unfold ex_prule.
+  intros n r t src ts sp [E|[]] _ Ho Hb. injection E as <- <-. unfold ex_prule.
   apply Forall_flat_map_intro. intros tk Hin.
   destruct (N.eqb (fst tk) 1); cbn [andb]; [|constructor].
   destruct (Nat.leb_spec (sstart (snd tk)) (send (snd tk))) as [Hw|Hw]; [|constructor].
@@ -284,8 +288,8 @@ Proof.
 Qed.
 Lemma ex_hist_ok : hist_ok N N ex_hist.
 Proof.
-  cbn [hist_ok ex_hist]. repeat split; intros ts sp Hin Ho; cbn in Hin;
-  repeat (destruct Hin as [<-|Hin]; [vm_compute in Ho; injection Ho as <-; cbn; lia|]); destruct Hin.
+  cbn [hist_ok ex_hist]. split; [|split; [|exact I]]; intros ts Hin; cbn in Hin;
+  repeat (destruct Hin as [<-|Hin]; [split; [repeat constructor; cbn; lia|intros sp Ho; vm_compute in Ho; injection Ho as <-; cbn; lia]|]); destruct Hin.
 Qed.
 
 (* the second clause of document 1 is served from the cache (miss, hit), document 2 too although it is another text *)
